@@ -75,6 +75,34 @@ fn gen_vec(rng: &mut Rng, dim: usize, pool: &[f32]) -> Vec<f32> {
     (0..dim).map(|_| *rng.pick(pool)).collect()
 }
 
+/// An index that stays "few" (at most `cap` vectors, no deletes) while the same nodes get new
+/// vectors again and again, with k larger than the index between the re-inserts.
+fn gen_reinsert_heavy(seed: u64, k: usize, cap: usize) -> (usize, Vec<VOp>) {
+    let mut rng = Rng::derive(seed ^ 0x5e1, k as u64);
+    let dim = 2 + rng.below(3);
+    let pool: Vec<f32> = vec![0.0, 1.0, -1.0, 0.5, 2.0, -3.5, 10.0, 0.25, 100.0, -0.125, 7.0, 1e-3];
+    let n_nodes = 3 + rng.below(cap.saturating_sub(2).max(1));
+    let mut ops = Vec::new();
+    for _ in 0..n_nodes.min(cap) {
+        ops.push(VOp::Add(gen_vec(&mut rng, dim, &pool)));
+    }
+    let live = n_nodes.min(cap);
+    for i in 0..(15 + rng.below(25)) {
+        ops.push(VOp::Reinsert(rng.below(live), gen_vec(&mut rng, dim, &pool)));
+        if i % 4 == 3 {
+            ops.push(VOp::Search(gen_vec(&mut rng, dim, &[1000.0, -1000.0, 0.0, 3.0]), 50));
+        }
+        if rng.chance(1, 12) {
+            ops.push(if rng.chance(1, 2) { VOp::Reopen } else { VOp::Compact });
+        }
+    }
+    let q = gen_vec(&mut rng, dim, &pool);
+    ops.push(VOp::Search(q.clone(), 50));
+    ops.push(VOp::Reopen);
+    ops.push(VOp::Search(q, 50));
+    (dim, ops)
+}
+
 fn gen_vcase(seed: u64, k: usize, small: bool) -> (usize, Vec<VOp>) {
     let mut rng = Rng::derive(seed, k as u64);
     let dim = 1 + rng.below(8);
@@ -301,7 +329,7 @@ pub fn main(args: &Args) -> Report {
         let (out, _) = par_cases(n, threads(), Some(deadline), |k| {
             let mut out = CaseOut::default();
             let small = k % 2 == 0;
-            let (dim, ops) = gen_vcase(seed, k, small);
+            let (dim, ops) = if k % 5 == 4 { gen_reinsert_heavy(seed, k, 2 * m_param + 1) } else { gen_vcase(seed, k, small) };
             let kinds: BTreeSet<&str> = ops.iter().map(|o| match o { VOp::Add(_) => "add", VOp::Reinsert(..) => "reinsert", VOp::Delete(_) => "delete", VOp::Reopen => "reopen", VOp::Compact => "compact", VOp::Search(..) => "search" }).collect();
             out.cell(format!("m={m_param}:dim={dim}:{}", kinds.into_iter().collect::<Vec<_>>().join("+")));
             match run_vcase(dim, &ops, m_param, &mut out) {
